@@ -5,8 +5,9 @@ Line-protocol machine `emit` for the `Emit` model (property C08).
 Requests (one line each, tokens separated by blanks; a row is a comma separated list of rationals,
 `|` separates the parts of one batch entry):
 
-* `bounds <dim> none` / `bounds <dim> list <arg>…` — `parseBounds`; an `<arg>` is `N` (None), `E` (empty
-  sequence) or `:`-separated entries, each a rational or `N`.  → `ok lo=… hi=…` | `err value`
+* `bounds <dim> none` / `bounds <dim> list <arg>…` — `parseBounds`; an `<arg>` is `N` (None for the whole
+  dimension) or `S:<e>:<e>…` (a sequence; `S` alone is the empty one), each entry a rational or `N`.
+  → `ok lo=… hi=…` | `err value`
 * `setb <lo-list> <hi-list>` (entries rational, `-inf`, `inf`) — bounds used by the requests below → `ok`
 * `clip <row>…`, `gauss <p>|<n>…`, `iso <p1>|<p2>|<iso>|<line>…`, `gopline <p1>|<p2>|<noise>|<line>…` → `ok <row>…`
 * `inb <row>…` → `ok <0/1>…`
@@ -52,8 +53,9 @@ def parseEntry (s : String) : Option (Option Rat) :=
 
 def parseArg (s : String) : Option BndArg :=
   if s = "N" then some .none
-  else if s = "E" then some (.seq [])
-  else ((s.splitOn ":").mapM parseEntry).map .seq
+  else match s.splitOn ":" with
+    | "S" :: es => (es.mapM parseEntry).map .seq
+    | _ => none
 
 def parts (s : String) : List String := s.splitOn "|"
 
